@@ -147,6 +147,14 @@ Proof.
         destruct (total_trans_p s (LRun c) _ x sub c n I T) as [Hle|(_ & e1 & todo1 & rest1 & fs1 & Hpc1 & _)]; [lia|].
         rewrite H in Hpc1. inversion Hpc1; subst. contradiction.
       * pose proof (inv_pc s I c) as P. rewrite H in P. destruct (pc_ok_inv_unsuball _ _ _ P) as [-> _]. discriminate.
+      * (* cancel *) exact (o_visit s O c e n x todo rest sub Hpc' Hin).
+      * (* skip *)
+        pose proof (inv_pc s I c) as P. rewrite H in P.
+        destruct i; cbn in H0; try contradiction.
+        -- destruct (pc_ok_inv_eose _ _ _ _ P) as [-> _]. discriminate.
+        -- rewrite (pc_ok_inv_count _ _ _ _ P) in Hpc'. discriminate.
+        -- rewrite (pc_ok_inv_ok _ _ _ _ P) in Hpc'. discriminate.
+      * (* defer *) discriminate.
     + destruct (ctl_fields _ _ (trans_ctl_other s l s' p T Hl)) as (Epc & _). rewrite Epc in Hpc'.
       pose proof (o_visit s O p e n x todo rest sub Hpc' Hin) as Z0.
       destruct (total_trans_p s l s' x sub p n I T) as [Hle|(El & _)]; [lia|].
@@ -202,6 +210,16 @@ Proof.
         apply (Keep rem); [rewrite H; right; now left | assumption |].
         intros e1 todo1 rest1 fs1 E1. rewrite H in E1. inversion E1; subst. contradiction.
       * apply (Keep rem); [rewrite H; now right | assumption | intros; rewrite H; discriminate].
+      * (* cancel *)
+        pose proof (o_pub s O c e n rem x sub Hin' Hx) as Z0.
+        destruct (total_trans_p s _ _ x sub c n I T) as [Hle|(El & _)]; [lia | discriminate].
+      * (* skip *)
+        exfalso. pose proof (inv_pc s I c) as P. rewrite H in P.
+        destruct i; cbn in H0; try contradiction.
+        -- destruct (pc_ok_inv_eose _ _ _ _ P) as [-> _]. contradiction.
+        -- rewrite (pc_ok_inv_count _ _ _ _ P) in Hin'. contradiction.
+        -- rewrite (pc_ok_inv_ok _ _ _ _ P) in Hin'. contradiction.
+      * (* defer *) destruct Hin' as [X|[]]. discriminate.
     + destruct (ctl_fields _ _ (trans_ctl_other s l s' p T Hl)) as (Epc & _). rewrite Epc in Hin'.
       pose proof (o_pub s O p e n rem x sub Hin' Hx) as Z0.
       destruct (total_trans_p s l s' x sub p n I T) as [Hle|(El & _)]; [lia|].
